@@ -1,3 +1,4 @@
+mod accuracy;
 mod calib;
 mod cbrun;
 mod config;
@@ -180,6 +181,11 @@ fn main() {
                 vseed::replay(&mut run, p, args.num("seed", 1), args.num("stride", 1) as usize);
             }
             vseed::random(&mut run, args.num("seed", 1), args.num("n", 500));
+            run.finish();
+        }
+        "accuracy" => {
+            let mut run = Runner::new(&args);
+            accuracy::run(&mut run, args.req("data"), args.num("seed", 1), args.num("batches", 1), args.num("size", 200) as usize);
             run.finish();
         }
         "names" => {
